@@ -6,17 +6,19 @@ package main
 
 import (
 	"bytes"
-	"runtime"
-	"sync"
 	"crypto/hmac"
 	"crypto/sha256"
 	"crypto/sha512"
+	"encoding/json"
+	"errors"
 	"fmt"
 	"io"
 	"math/big"
 	"net/http"
+	"runtime"
 	"strconv"
 	"strings"
+	"sync"
 
 	"github.com/kklash/bitcoinlib/base58"
 	"github.com/kklash/bitcoinlib/base58check"
@@ -1093,7 +1095,64 @@ func (f statusTransport) RoundTrip(req *http.Request) (*http.Response, error) {
 	return &http.Response{StatusCode: f.status, Status: fmt.Sprintf("%d x", f.status), Body: io.NopCloser(bytes.NewReader(f.body)), Header: http.Header{}, Request: req}, nil
 }
 
+// what json.Unmarshal leaves behind for a reply body, computed with a mirror of the library's response type
+// (the four flags of Model/Rpc.lean's Reply)
+func rpcReplyFlags(body []byte) []string {
+	type mirrorErr struct {
+		Code    int    `json:"code"`
+		Message string `json:"message"`
+	}
+	type mirror struct {
+		Error  *mirrorErr `json:"error"`
+		Result any        `json:"result"`
+	}
+	var res any
+	obj := &mirror{Result: &res}
+	err := json.Unmarshal(body, &obj)
+	f := func(b bool) string {
+		if b {
+			return "1"
+		}
+		return "0"
+	}
+	if err != nil || obj == nil {
+		return []string{f(err != nil), f(obj == nil), "1", "1"}
+	}
+	return []string{"0", "0", f(obj.Error == nil), f(obj.Result == nil)}
+}
+
 func init() {
+	// the verdict of rpc.Connection on a reply (status, body), against the classification of Model/Rpc.lean
+	reg("rpc.classify", Full, func(a []string) (string, []string) {
+		st, err := strconv.Atoi(a[0])
+		if err != nil || len(a) != 6 {
+			return "bad-op", nil
+		}
+		body := unhx(a[1])
+		if string(body) == "Work queue depth exceeded" && st != 401 {
+			return "ok retry", nil // the client sleeps and sends the request again: not run here (race rig: rpcbusy)
+		}
+		old := http.DefaultClient.Transport
+		http.DefaultClient.Transport = statusTransport{st, body}
+		defer func() { http.DefaultClient.Transport = old }()
+		conn, err := rpc.NewConnection("http://127.0.0.1:1/", "u", "p")
+		if err != nil {
+			return "bad-op", nil
+		}
+		_, err = conn.Request("getblockcount")
+		var rf *rpc.ErrRPCFailure
+		switch {
+		case err == nil:
+			return "ok ok", nil
+		case errors.Is(err, rpc.ErrInvalidCredentials):
+			return "ok cred", nil
+		case errors.Is(err, rpc.ErrInvalidResponseFormat):
+			return "ok format", nil
+		case errors.As(err, &rf):
+			return "ok rpc", nil
+		}
+		return "ok other " + err.Error(), nil
+	})
 	reg("c17.rpcstatus", GoOnly, func(a []string) (string, []string) {
 		st, err := strconv.Atoi(a[0])
 		if err != nil {
@@ -1115,11 +1174,12 @@ func init() {
 		return "ok", nil
 	})
 	regExtra("C17", func(r *Runner) {
-		bodies := []string{`{"result":null,"error":null,"id":0}`, `{}`, `{"result":5,"error":null,"id":0}`, `{"error":{"code":-1,"message":"x"}}`,
+		bodies := []string{`Work queue depth exceeded`, `{"result":0,"error":null}`, `{"result":"","error":{"code":-8,"message":"y"}}`, `{"result":false}`, ` null `, `{"error":{}}`, `{"result":null,"error":null,"id":0}`, `{}`, `{"result":5,"error":null,"id":0}`, `{"error":{"code":-1,"message":"x"}}`,
 			`null`, `[]`, ``, `{"result":`, `<html>500</html>`, `{"error":null}`, `{"result":{"a":1}}`}
 		for _, st := range []int{200, 201, 204, 301, 400, 401, 403, 404, 500, 503} {
 			for _, b := range bodies {
 				r.DoMode("c17.rpcstatus", []string{strconv.Itoa(st), strHex(b)}, "rpc-status-and-body", true, "", GoOnly)
+				r.Do("rpc.classify", append([]string{strconv.Itoa(st), strHex(b)}, rpcReplyFlags([]byte(b))...), "rpc-reply-classification", true, "")
 			}
 		}
 		// mnemonics with unknown words that sort before the first and after the last list word, of
